@@ -18,7 +18,7 @@ from fractions import Fraction as F
 from . import build, proto, core, gen, translate, solvelib, lpfam, hist, histrun, p_c16, p_c11, p_files
 from .gen import q2s, LP, INF, NINF
 
-OBL = [("Qsx.Props.C17", "Qsx.Props.C17." + t) for t in ["step_safe", "history_safe", "history_inv", "addrow_guard_sufficient", "addrow_guard_tight", "addcol_safe", "addcoef_move_safe", "symtab_pool_write_fits"]]
+OBL = [("Qsx.Props.C17", "Qsx.Props.C17." + t) for t in ["step_safe", "history_safe", "history_inv", "addrow_guard_sufficient", "addrow_guard_tight", "addcol_safe", "addcoef_move_safe", "symtab_pool_write_fits", "symtab_pool_history"]]
 RAW_KEYS = ["nrows", "ncols", "nstruct", "matcols", "rowsize", "colsize", "structsize", "matcolsize"]
 
 
@@ -278,9 +278,22 @@ def run(pid, tier, seed):
             seq.append((cmd, a, b))
         if ops is None:
             continue
-        real = [o for o in ops if o is not None]
-        k = model.ask("cap %s %d %s" % (" ".join(map(str, raws[0][1])), len(real), " ".join(real)))
-        pend.append((k, ops, seq, ctx))
+        # a rejected call (duplicate name, bad index) may have grown an array before it was turned down: capacities only grow,
+        # counts stay - the bookkeeping model is restarted from the observed state at such a point
+        segs, cur_ops, cur_seq, start = [], [], [], raws[0][1]
+        for o, (cmd, a, b) in zip(ops, seq):
+            if o is None and a != b and a[:4] == b[:4] and all(y >= x for x, y in zip(a[4:], b[4:])):
+                ev.stat("cap-resync-after-rejected-call")
+                segs.append((start, cur_ops, cur_seq))
+                cur_ops, cur_seq, start = [], [], b
+                continue
+            cur_ops.append(o)
+            cur_seq.append((cmd, a, b))
+        segs.append((start, cur_ops, cur_seq))
+        for start, sops, sseq in segs:
+            real = [o for o in sops if o is not None]
+            k = model.ask("cap %s %d %s" % (" ".join(map(str, start)), len(real), " ".join(real)))
+            pend.append((k, sops, sseq, ctx))
     model.run()
     for k, ops, seq, ctx in pend:
         ans = [e[1] for e in model.ans(k) if e[0] == "s"]
